@@ -64,6 +64,17 @@ THEOREMS = [
     "KrroodVerif.Eql.C10N_rows",
     "KrroodVerif.Eql.C10N_prefix",
     "KrroodVerif.Eql.C10N_pulled_mono",
+    "KrroodVerif.Eql.C10N_streaming",
+    "KrroodVerif.Eql.C10N_streaming_query",
+    "KrroodVerif.Eql.C10N_streaming_var",
+    "KrroodVerif.Eql.C10N_streaming_all",
+    "KrroodVerif.Eql.C10N_exists_stream",
+    "KrroodVerif.Eql.C10N_exists_prefix",
+    "KrroodVerif.Eql.C10N_exists_adds_nothing",
+    "KrroodVerif.Eql.C10N_forall_blocking",
+    "KrroodVerif.Eql.C10N_forall_early_exit",
+    "KrroodVerif.Eql.C10N_forall_stops",
+    "KrroodVerif.Eql.C10N_forall_step",
 ]
 MODEL_FUNCTION = ("Eql.traceQuery / Eql.traceE / Eql.uptoRow / Eql.pulled (Model/EqlTrace.lean); Eql.traceExistsRoot / "
                   "Eql.traceForAllRoot (Model/EqlTraceQ.lean)")
